@@ -28,9 +28,11 @@ for e in kf["open"]:
     out.append(f"- `{e['id']}` ({', '.join(e['properties'])}): {e['what']}")
 out.append("\nFixes per property: " + ", ".join(f"{p}: {sum(1 for e in kf['fixed'] if e['property']==p)}" for p in sorted(set(e['property'] for e in kf['fixed']))) + ".\n")
 out.append("### A.6 Seeded property-breaking changes\n")
-out.append("Written by sub-agents that saw only the property text and a scratch worktree of /repo (nothing from /verif); each kept under `seeded/<id>/` (patch.diff, demo test, meta.json) after `lib/confirm_seed.py` confirmed in a scratch worktree that the demonstration passes without the patch, fails with it, the tree builds and the 775-test baseline still passes (confirm.json). `lib/seedone.py seeded/<id>` applies the patch to /repo, runs the property's check and undoes it.\n")
+out.append("Written by sub-agents that saw only the property text and a scratch worktree of /repo (nothing from /verif); each kept under `seeded/<id>/` (patch.diff, demo test, meta.json) after `lib/confirm_seed.py` confirmed in a scratch worktree that the demonstration passes without the patch, fails with it, the tree builds and the 775-test baseline still passes (confirm.json). `lib/seedone.py seeded/<id>` applies the patch in a scratch worktree of /repo's HEAD (never in /repo itself), points the property's check at it with `VERIF_REPO`, and removes the worktree. 'first run' is the verdict of the check as it stood when the seed arrived; every miss was answered by a generic strengthening of the generator/model (never by special-casing the seed) and re-run ('now'). A seed marked `(Cyy)` in the last column is decided by another property's check (the change breaks that property too).\n")
+_seeds=[json.load(open(f)) for f in glob.glob(os.path.join(R,'seeded','*','meta.json'))]
+out.append(f"Totals: {len(_seeds)} seeds; {sum(1 for m in _seeds if m.get('first_result')=='missed')} missed on first run; {sum(1 for m in _seeds if (m.get('check_result') or {}).get('detected') or m.get('also_detected_by'))} detected now.\n")
 out.append("| seed | what it breaks / needs | confirmed | first run | now |\n|---|---|---|---|---|")
-for d in sorted(glob.glob(os.path.join(R, "seeded", "*"))):
+for d in sorted(glob.glob(os.path.join(R, "seeded", "*")), key=lambda x: (os.path.basename(x).split("-")[0], int(os.path.basename(x).split("-")[1]) if os.path.basename(x).split("-")[1].isdigit() else 0)):
     try:
         m = json.load(open(os.path.join(d, "meta.json")))
     except Exception:
@@ -42,6 +44,8 @@ for d in sorted(glob.glob(os.path.join(R, "seeded", "*"))):
     cr = m.get("check_result", {})
     first = m.get("first_result", "detected" if cr.get("detected") else "missed")
     now = "detected" if cr.get("detected") else ("n/a" if cr.get("detected") is None else "MISSED")
+    if not cr.get("detected") and m.get("also_detected_by"):
+        now = "detected (" + str(m["also_detected_by"])[:40] + ")"
     summ = (m.get("summary") or "")[:150].replace("|", "/").replace("\n", " ")
     out.append(f"| {os.path.basename(d)} | {summ} | {conf} | {first} | {now} |")
 out.append("")
